@@ -43,13 +43,33 @@ func c18(env *core.Env) {
 	var classes []string
 	dig := reg.Sha256([]byte("content"))
 	tr := &simnet.Transport{Env: env, Handler: http.HandlerFunc(func(http.ResponseWriter, *http.Request) {}), EOFWithData: c.Bool("eofdata", 1, 4), OneByteReads: c.Bool("onebyte", 1, 10), MaxExchanges: 400}
+	// What the peer does once its script is used up: the network fails, or (a
+	// stateless peer) it goes on giving its last answer to whatever it is asked.
+	sticky := c.Bool("sticky-last-answer", 1, 4)
+	stickyServed := 0
+	var lastAnswer *simnet.Response
+	tr.OmitRequest = c.Bool("response-without-request", 1, 6)
 	tr.Plan = func(req *http.Request) simnet.Fault {
-		if used >= scriptLen {
+		if used >= scriptLen && !(sticky && lastAnswer != nil && stickyServed < 60) {
 			return simnet.Fault{Kind: simnet.DropRequest}
 		}
 		return simnet.Fault{}
 	}
+	var generate func(req *http.Request, resp *simnet.Response)
 	tr.Mutate = func(req *http.Request, resp *simnet.Response) {
+		if used >= scriptLen && lastAnswer != nil {
+			stickyServed++
+			cp := *lastAnswer
+			cp.Header = lastAnswer.Header.Clone()
+			*resp = cp
+			return
+		}
+		generate(req, resp)
+		cp := *resp
+		cp.Header = resp.Header.Clone()
+		lastAnswer = &cp
+	}
+	generate = func(req *http.Request, resp *simnet.Response) {
 		used++
 		h := http.Header{}
 		resp.Header = h
@@ -237,7 +257,7 @@ func c18(env *core.Env) {
 	}
 	env.Op(fmt.Sprintf("%s/p%d/%v/%s", opName, pageSize, classes, outcome))
 	env.Logf("%s pageSize=%d script=%d used=%d -> %v", opName, pageSize, scriptLen, used, opErr)
-	env.Sample("%s (ListPageSize %d) against script %v -> %s", opName, pageSize, classes, outcome)
+	env.Sample("%s (ListPageSize %d, sticky last answer %v, responses without Request %v) against script %v -> %s", opName, pageSize, sticky, tr.OmitRequest, classes, outcome)
 	// bounded progress: every request consumed one script entry; at most one more was
 	// attempted (and failed) after the script ran out - except that net/http itself
 	// follows up to 10 redirects per request.
@@ -248,8 +268,13 @@ func c18(env *core.Env) {
 	if strings.Contains(opName, "+") {
 		calls = 6 // a BlobWriter sequence is up to six client calls, each of which may try once more
 	}
-	if tr.Seq() > scriptLen+calls {
+	if !sticky && tr.Seq() > scriptLen+calls {
 		env.Failf("C18/unbounded-requests/"+opName, "%s issued %d requests although the server's script had only %d answers and the network failed afterwards (budget: script + %d)", opName, tr.Seq(), scriptLen, calls)
+	}
+	if sticky && stickyServed >= 60 {
+		// (net/http follows at most 10 redirects per request; a writer sequence is a
+		// handful of requests; nothing legitimately asks sixty times for the same answer)
+		env.Failf("C18/no-progress/"+opName, "%s kept asking a peer that gives the same answer every time: %d requests after its %d scripted answers, the last ones all answered alike", opName, stickyServed, scriptLen)
 	}
 }
 
